@@ -611,9 +611,9 @@ theorem invD_process {c : Conn} (h : InvD false [] c) (hkeys : (c.slots.map (·.
 
 /-! ### Event handlers -/
 
-theorem invD_processChannelMessage {X : List Nat} {c : Conn} (h : InvD false X c) (n : Nat) (m : Msg) :
-    InvD false X (processChannelMessage c n m).1 := by
-  unfold processChannelMessage
+theorem invD_processPlainMessage {X : List Nat} {c : Conn} (h : InvD false X c) (n : Nat) (m : Msg) :
+    InvD false X (processPlainMessage c n m).1 := by
+  unfold processPlainMessage
   split
   · exact invD_sealOut (invD_pushOut h _)
   · exact invD_pushOut h _
@@ -639,6 +639,12 @@ theorem invD_popFifo {d : Bool} {X : List Nat} {c c1 : Conn} {m : Msg} (h : InvD
     refine invD_setLink h _ _ (fun hl => hl) (fun hl => ?_)
     have := h.ff lid hl
     rw [hf] at this; cases this
+
+theorem invD_processChannelMessage {X : List Nat} {c : Conn} (h : InvD false X c) (n : Nat) (m : Msg) :
+    InvD false X (processChannelMessage c n m).1 :=
+  processChannelMessage_ind (P := InvD false X)
+    (fun _ n _ m _ h _ hp => invD_processPlainMessage (invD_popFifo h hp) n m)
+    (fun _ h' => invD_processPlainMessage h' n m) h
 
 theorem invD_drainFifo {X : List Nat} {c : Conn} (h : InvD false X c) (fuel n : Nat) :
     InvD false X (drainFifo fuel c n).1 := by
